@@ -8,7 +8,7 @@ on intervals.
 import sympy
 from fractions import Fraction
 
-from kernel.type import RealType
+from kernel.type import NatType, RealType
 from kernel import term
 from kernel.term import Term
 from kernel.thm import Thm
@@ -49,6 +49,10 @@ def convert(t):
     elif t.is_plus():
         return convert(t.arg1) + convert(t.arg)
     elif t.is_minus():
+        # Subtraction of natural numbers is cut off at zero: it is not the
+        # subtraction of SymPy.
+        if t.get_type() == NatType:
+            raise SymPyException("convert: subtraction of natural numbers: %s" % str(t))
         return convert(t.arg1) - convert(t.arg)
     elif t.is_uminus():
         return -convert(t.arg)
